@@ -723,6 +723,8 @@ class FlattenedEncoding(LazyIndexMap):
         return np.column_stack(np.unravel_index(indices, self._data.shape))
 
     def _from_base_indices(self, base_indices):
+        # 1D run length encodings give their sparse indices as (m,) not (m, 1)
+        base_indices = np.reshape(base_indices, (-1, self._data.ndims))
         return np.expand_dims(
             np.ravel_multi_index(base_indices.T, self._data.shape), axis=-1
         )
